@@ -58,7 +58,7 @@ pub fn eval_motion(p: &[V3; 3], motion: &Iso, which: usize, delta: f64) -> (Vec<
     let out = build_frame(p, &q);
     let cls = if delta == 0.0 {
         "exact"
-    } else if delta.abs() <= 0.004 {
+    } else if delta.abs() < 0.005 {
         "within-tolerance"
     } else {
         "beyond-tolerance"
@@ -234,7 +234,7 @@ fn motions() -> Vec<Iso> {
     v
 }
 
-const DELTAS: [f64; 9] = [0.0, 0.001, -0.001, 0.004, -0.004, 0.006, -0.006, 0.05, -0.05];
+const DELTAS: [f64; 13] = [0.0, 0.001, -0.001, 0.004, -0.004, 0.0049, -0.0049, 0.0051, -0.0051, 0.006, -0.006, 0.05, -0.05];
 
 pub fn run(_ctx: &Ctx) -> Report {
     let tris = triangles();
@@ -292,7 +292,7 @@ pub fn run(_ctx: &Ctx) -> Report {
     }
     rep.traces_validated = rep.transitions;
     rep.rule = "triangles {unit, scalene, thin 1 mm, 10 m out, 1 km out} x rigid motions (4 axes x {0,30,90,179,180,-120 deg} x 3 translations) x perturbation of \
-                each image point along an edge by {0, +-1, +-4, +-6, +-50 mm} + degenerate triples (collinear source/target, coincident, scaled) + \
+                each image point along an edge by {0, +-1, +-4, +-4.9, +-5.1, +-6, +-50 mm} + degenerate triples (collinear source/target, coincident, scaled) + \
                 Frame::translation + forward_transformed on robots x poses x small frames; signature = (perturbation class, outcome)".into();
     rep.set("axes", json!({"triangles": tris.len(), "motions": mots.len(), "deltas_m": DELTAS.to_vec()}));
     rep
